@@ -77,6 +77,12 @@ def build_files(case):
                 else:
                     extra += ["", f"function gate_78_{i}(env_78) {{", '    if (env_78 === "stage78") {', f"        return go_78_{i}(env_78);", '    } else if (env_78 === "prod78") {',
                               f"        return stop_78_{i}(env_78);", "    }", "    return null;", "}"]
+        if lang == "py":
+            # the same local names in many files, once bound to a list and once to a string that is concatenated in a loop
+            if i % 2 == 0:
+                extra += ["", f"def collect_shared_{i}(items):", "    result = []", "    for it in items:", "        result.append(it)", "    return result"]
+            else:
+                extra += ["", f"def render_shared_{i}(items):", '    result = ""', "    for it in items:", "        result += str(it)", "    return result"]
         files[f"src/f{i:02d}{seeds.EXT[lang]}"] = text + ("\n".join(extra) + "\n" if extra else "")
     return files
 
@@ -283,8 +289,12 @@ def check(case) -> Case:
 @st.composite
 def sched_cases(draw, kind="sched", max_w=16):
     w = draw(st.integers(1, max_w))
-    n = draw(st.sampled_from([2 * w - 2, 2 * w - 1, 2 * w, 2 * w + 1, 3 * w]))
-    n = max(2, min(n, 40))
+    # both sides of the 2 x workers threshold, and file counts far above it (many files per worker,
+    # counts that are not a multiple of the worker count or of any batch size)
+    n = draw(st.one_of(st.sampled_from([2 * w - 2, 2 * w - 1, 2 * w, 2 * w + 1, 3 * w]),
+                       st.sampled_from([4 * w + 1, 8 * w + 1, 9 * w, 12 * w + 5, 16 * w + 3]),
+                       st.integers(2, 64)))
+    n = max(2, min(n, 64))
     langs = draw(st.lists(st.sampled_from(LANGS), min_size=1, max_size=4, unique=True))
     if "py" not in langs and "ts" not in langs and "js" not in langs:
         langs.append(draw(st.sampled_from(["py", "ts", "js"])))
@@ -305,7 +315,7 @@ CLI_CMDS = ["nesting", "srp", "magic-numbers", "dry", "stringly-typed", "imprope
 def cli_cells(seed):
     cells = []
     for i, cmd in enumerate(CLI_CMDS):
-        for n in (15, 16, 17, 24):
+        for n in (15, 16, 17, 24, 65):
             cells.append({"kind": "cli", "cmd": cmd, "w": 8, "n": n, "langs": ["py", "ts", "rs", "js"], "per_file": 2, "fam_off": (i + seed) % 7,
                           "dup": 3, "sty": 3, "order": list(range(n)), "dir_target": (i + n + seed) % 2 == 0})
     return cells
@@ -317,9 +327,9 @@ def run(ctx):
     cells = cli_cells(ctx.seed)
     if ctx.quick:
         cells = [c for i, c in enumerate(c for c in cells if c["n"] in (16, 17)) if (i + ctx.seed) % 2 == 0 or c["cmd"] in ("dry", "stringly-typed")] \
-            + [c for c in cells if c["n"] == 15][:: 4]
+            + [c for c in cells if c["n"] == 15][:: 4] + [c for c in cells if c["n"] == 65][ctx.seed % 5:: 5]
     done = ctx.each(ctx.my_cells(cells), check)
-    ctx.stats.extra.setdefault("matrix", {})["cli command x file count {15,16,17,24} (real subprocess, real pool)"] = {"cells": len(ctx.my_cells(cells)), "done": done}
+    ctx.stats.extra.setdefault("matrix", {})["cli command x file count {15,16,17,24,65} (real subprocess, real pool)"] = {"cells": len(ctx.my_cells(cells)), "done": done}
 
 
 def replay(case) -> Case:
